@@ -227,7 +227,12 @@ func main() {
 					for _, code := range cs {
 						errs := make([]int16, f+1)
 						errs[f] = code
-						a, _ := build(r, op, v, errs, false)
+						a, n := build(r, op, v, errs, false)
+						// array-bearing responses: make sure the error sits in a NON-LAST entry as well (an early exit
+						// inside the element loop leaves the following entries unread)
+						for try := 0; try < 8 && ne >= 2 && n <= f+1; try++ {
+							a, n = build(r, op, v, errs, false)
+						}
 						emit(a, follower(a))
 					}
 				}
